@@ -197,9 +197,29 @@ def dsa_generate_worker(seed):
     dsa_sign_verifies, and do signatures made with the generated key verify?"""
     import loop
     from tlslite.utils.python_dsakey import Python_DSAKey
+    import tlslite.utils.python_dsakey as pdk
     rnd = loop.DetRandom(seed).install()
+    draws = []
+    saved = pdk.getRandomNumber
+
+    def rec_rand(lo, hi):
+        v = saved(lo, hi)
+        draws.append((lo, hi, v))
+        return v
+    pdk.getRandomNumber = rec_rand
     try:
         k = Python_DSAKey.generate(1024, 160)
+        pdk.getRandomNumber = saved
+        # the construction of Model/C10_Dsa.v dsa_gen_key, recomputed here from the recorded draws:
+        # ... (k_i for p)*, (index for g)+, x
+        p_, q_ = int(k.p), int(k.q)
+        kk = (p_ - 1) // (2 * q_)
+        ks = [v for lo, hi, v in draws if hi == (1 << 1024) // (2 * q_)]
+        idx = [v for lo, hi, v in draws if (lo, hi) == (2, p_ - 1)]
+        xs = [v for lo, hi, v in draws if (lo, hi) == (1, q_ - 1)]
+        as_modelled = bool(ks and ks[-1] == kk and p_ == 2 * kk * q_ + 1 and idx and int(k.g) == pow(idx[-1], (p_ - 1) // q_, p_)
+                           and xs and int(k.private_key) == xs[-1] and int(k.public_key) == pow(int(k.g), xs[-1], p_)
+                           and pow(idx[-1], p_ - 1, p_) == 1)
         ok = 0
         msgs = [b'generated key message %d' % i for i in range(4)]
         for m in msgs:
@@ -209,15 +229,16 @@ def dsa_generate_worker(seed):
                 pass
         return dict(p=int(k.p), q=int(k.q), g=int(k.g), x=int(k.private_key), y=int(k.public_key),
                     q_divides_p_minus_1=(int(k.p) - 1) % int(k.q) == 0, g_order_divides_q=pow(int(k.g), int(k.q), int(k.p)) == 1,
-                    verified=ok, signed=len(msgs), seed=seed)
+                    verified=ok, signed=len(msgs), seed=seed, as_modelled=as_modelled)
     except Exception as e:  # noqa
         return dict(error='%s: %s' % (type(e).__name__, e), seed=seed)
     finally:
+        pdk.getRandomNumber = saved
         rnd.uninstall()
 
 
 def odd_key_worker(which):
-    """The two unusual-modulus keys of corpus/C10 (findings): returns records like sig_worker"""
+    """The two unusual-modulus keys of corpus/C10 (former findings 1 and 2): returns records"""
     import c10_util as U
     out = []
     ossl = U.OpenSSL()
@@ -226,22 +247,31 @@ def odd_key_worker(which):
         if which == 'rsa704':
             kf = os.path.join(CORPUS, 'rsa704.pem')
             key = U.load_key(kf)
+            k = (int(key.n).bit_length() + 7) // 8
             # 88-byte modulus, SHA-512 DigestInfo (83 bytes): PS would have 2 bytes; RFC 8017 9.2 step 3 refuses
+            d = dict(key='rsa704', cls='short-ps-small-modulus', msg=msg.hex(), ps_len=k - 83 - 3)
             try:
                 sig = bytes(key.hashAndSign(bytearray(msg), 'pkcs1', 'sha512', 0))
-                acc = U.tl_verify(key, 'rsa', sig, msg, 'pkcs1', 'sha512', 0)
-                ov = ossl.verify(kf, 'rsa', sig, msg, 'pkcs1', 'sha512', 0)
-                out.append(dict(key='rsa704', cls='short-ps-small-modulus', signed=True, tlslite_accepts=acc, openssl_accepts=ov,
-                                sig=sig.hex(), msg=msg.hex(), ps_len=key.n.bit_length() // 8 - 83 - 3))
+                d.update(signed=True)
             except Exception as e:  # noqa
-                out.append(dict(key='rsa704', cls='short-ps-small-modulus', signed=False, exc=type(e).__name__))
+                d.update(signed=False, exc=type(e).__name__)
+                # the block the old code would have produced, made with the private key
+                T = U.digestinfo('sha512', hashlib.sha512(msg).digest())
+                sig = U.rsa_private_raw(key, b'\x00\x01' + b'\xff' * (k - len(T) - 3) + b'\x00' + T)
+            d.update(sig=sig.hex(), tlslite_accepts=U.tl_verify(key, 'rsa', sig, msg, 'pkcs1', 'sha512', 0),
+                     openssl_accepts=ossl.verify(kf, 'rsa', sig, msg, 'pkcs1', 'sha512', 0))
+            # control: a hash that leaves >= 8 bytes of padding works both ways
+            s2 = bytes(key.hashAndSign(bytearray(msg), 'pkcs1', 'sha256', 0))
+            d.update(control_ok=U.tl_verify(key, 'rsa', s2, msg, 'pkcs1', 'sha256', 0) is True and
+                     ossl.verify(kf, 'rsa', s2, msg, 'pkcs1', 'sha256', 0))
+            out.append(d)
         else:
             kf = os.path.join(CORPUS, 'rsa1025.pem')
             key = U.load_key(kf)
             d = dict(key='rsa1025', cls='pss-modbits-1-mod-8', msg=msg.hex())
             try:
                 sig = bytes(key.hashAndSign(bytearray(msg), 'pss', 'sha256', 32))
-                d.update(signed=True, self_verify=U.tl_verify(key, 'rsa', sig, msg, 'pss', 'sha256', 32),
+                d.update(signed=True, sig=sig.hex(), self_verify=U.tl_verify(key, 'rsa', sig, msg, 'pss', 'sha256', 32),
                          openssl_accepts=ossl.verify(kf, 'rsa', sig, msg, 'pss', 'sha256', 32))
             except Exception as e:  # noqa
                 d.update(signed=False, exc=type(e).__name__)
@@ -249,7 +279,13 @@ def odd_key_worker(which):
             if osig is not None:
                 d.update(osig=osig.hex(), openssl_self=ossl.verify(kf, 'rsa', osig, msg, 'pss', 'sha256', 32),
                          tlslite_accepts_openssl_sig=U.tl_verify(key, 'rsa', osig, msg, 'pss', 'sha256', 32))
-            # PKCS#1 v1.5 works with this key: control
+            # a well-formed EM behind a NON-zero leading byte (value still below n) must be rejected
+            mh = hashlib.sha256(msg).digest()
+            em, emlen = U.pss_em(key, mh, 'sha256', bytes(32))
+            bad = U.rsa_private_raw(key, b'\x01' + em)
+            if bad is not None:
+                d.update(lead_sig=bad.hex(), leading_byte_accepted=U.tl_verify(key, 'rsa', bad, msg, 'pss', 'sha256', 32),
+                         leading_byte_openssl=ossl.verify(kf, 'rsa', bad, msg, 'pss', 'sha256', 32))
             s1 = bytes(key.hashAndSign(bytearray(msg), 'pkcs1', 'sha256', 0))
             d.update(pkcs1_ok=U.tl_verify(key, 'rsa', s1, msg, 'pkcs1', 'sha256', 0) is True and
                      ossl.verify(kf, 'rsa', s1, msg, 'pkcs1', 'sha256', 0))
@@ -456,10 +492,14 @@ def model_cases_worker(args):
             kname, kfile, kind = by['rsapss'] if i % 8 == 3 else (by['rsa2048'] if i % 8 == 6 else by['rsa1024'])
             if n > 40 and i % 11 == 10:
                 kname, kfile, kind = keys[(i // 11) % len(keys)]
+            if i % 8 == 5:      # modulus of 8k+1 bits: emLen = k-1
+                kname, kfile, kind = 'rsa1025', os.path.join(CORPUS, 'rsa1025.pem'), 'rsa'
             key = U.load_key(kfile)
             scheme, h, slen = rng.choice(U.schemes_for(kind) + ([('pkcs1', 'sha256', 0)] if kind == 'rsa-pss' else []))
             if i < 2:       # every crafted class at least once: PKCS#1 v1.5, then PSS
                 scheme, h, slen = [('pkcs1', 'sha256', 0), ('pss', 'sha256', 32)][i]
+            if kname == 'rsa1025':
+                scheme, h, slen = rng.choice([('pss', 'sha256', 32), ('pss', 'sha1', 20), ('pss', 'sha256', 0)])
             msg = bytes(rng.randrange(256) for _ in range(rng.choice([0, 5, 40])))
             digest = hashlib.new(h, msg).digest()
             try:
@@ -474,6 +514,11 @@ def model_cases_worker(args):
             m = bytearray(sig)
             m[rng.randrange(len(m))] ^= 1 << rng.randrange(8)
             cands.append(('bitflip', bytes(m), slen))
+            if kname == 'rsa1025':
+                em1, _ = U.pss_em(key, digest, h, bytes(slen))
+                lb = U.rsa_private_raw(key, b'\x01' + em1)
+                if lb is not None:
+                    cands.append(('leading-byte-01', lb, slen))
             cands.append(('too-big', (int(key.n) + 5).to_bytes(len(sig), 'big') if (int(key.n) + 5).bit_length() <= 8 * len(sig) else sig, slen))
             for cls, sg, vs in (rng.sample(cands, min(len(cands), 3)) if i >= 2 else cands):
                 vh = h
@@ -499,11 +544,12 @@ def model_cases_worker(args):
         # hashAlg=None (TLS <= 1.1 MD5||SHA1, 36 bytes) and SHA-1 with/without NULL
         key = U.load_key('clientX509Key.pem')
         for i in range(n):
-            data = bytes(rng.randrange(256) for _ in range(rng.choice([36, 20, 0, 117, 125, 126])))
+            data = bytes(rng.randrange(256) for _ in range(rng.choice([36, 20, 0, 116, 117, 118, 124, 125, 126])))
             try:
                 sig = bytes(key.sign(bytearray(data), 'pkcs1', None))
             except Exception:  # noqa
-                sig = bytes(128)
+                # sign refuses (< 8 bytes of padding): make the block the old code produced
+                sig = U.rsa_private_raw(key, b'\x00\x01' + b'\xff' * (128 - len(data) - 3) + b'\x00' + data) if len(data) <= 125 else bytes(128)
             for vdata in (data, data[:-1] if data else b'\x00'):
                 try:
                     impl, code = bool(key.verify(bytearray(sig), bytearray(vdata), 'pkcs1', None)), 0
@@ -581,7 +627,7 @@ def model_cases_worker(args):
                     meta.append(dict(fam=fam, bits=bits, n_ops=len(ms)))
                 else:
                     k = (n_.bit_length() + 7) // 8
-                    data = bytes(rng.randrange(256) for _ in range(rng.choice([0, 1, max(k - 3, 0), max(k - 4, 0), k - 2, k + 1])))
+                    data = bytes(rng.randrange(256) for _ in range(rng.choice([0, 1, max(k - 11, 0), max(k - 12, 0), max(k - 10, 0), max(k - 3, 0), k + 1])))
                     try:
                         impl, code = bytes(key.sign(bytearray(data), 'pkcs1', None)), 0
                     except Exception as ex:  # noqa
@@ -850,21 +896,38 @@ def run(ctx):
         for recs in a_odd.get(600):
             for r in recs:
                 ctx.count('odd-modulus-keys', 1, [(r['key'], r['cls'])], sample=r)
-                if r['cls'] == 'short-ps-small-modulus' and r.get('signed') and r.get('tlslite_accepts') is True:
+                if r['cls'] == 'short-ps-small-modulus' and (r.get('signed') or r.get('tlslite_accepts') is not False):
                     found = ctx.violation('pkcs1-noncanonical-accepted:short-ps-small-modulus',
-                                  'RSA PKCS#1 v1.5 with a %d-byte padding string (< 8, not an RFC 8017 encoding) is produced and accepted '
-                                  '(704-bit key, SHA-512); openssl accepts=%s' % (r['ps_len'], r.get('openssl_accepts')),
-                                  dict(r, key_file='corpus/C10/rsa704.pem', how='key.hashAndSign(msg,"pkcs1","sha512"); key.hashAndVerify(sig,msg,"pkcs1","sha512")')) or found
-                if r['cls'] == 'pss-modbits-1-mod-8' and (not r.get('signed') or r.get('tlslite_accepts_openssl_sig') is not True):
+                                          'RSA PKCS#1 v1.5 with a %d-byte padding string (< 8, not an RFC 8017 encoding): sign() %s, verify() says %s '
+                                          '(704-bit key corpus/C10/rsa704.pem, SHA-512, message %r); openssl accepts=%s'
+                                          % (r['ps_len'], 'emits it' if r.get('signed') else 'raises ' + str(r.get('exc')), r.get('tlslite_accepts'),
+                                             bytes.fromhex(r['msg']), r.get('openssl_accepts')),
+                                          dict(r, key_file='corpus/C10/rsa704.pem',
+                                               how='key.hashAndSign(msg,"pkcs1","sha512"); key.hashAndVerify(sig,msg,"pkcs1","sha512")')) or found
+                if r['cls'] == 'short-ps-small-modulus' and r.get('control_ok') is not True:
+                    found = ctx.violation('sig-roundtrip:rsa704:sha256', 'the 704-bit key no longer signs/verifies SHA-256 (11+ bytes of padding)',
+                                          dict(r, key_file='corpus/C10/rsa704.pem')) or found
+                if r['cls'] == 'pss-modbits-1-mod-8' and (not r.get('signed') or r.get('self_verify') is not True or
+                                                         r.get('openssl_accepts') is not True or
+                                                         r.get('tlslite_accepts_openssl_sig') is not True):
                     found = ctx.violation('pss-unusable:modbits=1mod8',
-                                  'RSA-PSS with a 1025-bit modulus: tlslite sign %s; a valid openssl signature (openssl self-check=%s) is %s by tlslite'
-                                  % ('raises ' + r.get('exc', '?') if not r.get('signed') else 'works', r.get('openssl_self'),
-                                     'accepted' if r.get('tlslite_accepts_openssl_sig') is True else 'rejected'),
-                                  dict(r, key_file='corpus/C10/rsa1025.pem', how='key.hashAndSign(msg,"pss","sha256",32); key.hashAndVerify(osig,msg,"pss","sha256",32)')) or found
+                                          'RSA-PSS with a 1025-bit modulus (corpus/C10/rsa1025.pem, message %r): tlslite sign %s, self-verify %s, openssl accepts it: %s; '
+                                          'a valid openssl signature (openssl self-check=%s) is %s by tlslite'
+                                          % (bytes.fromhex(r['msg']), 'raises ' + r.get('exc', '?') if not r.get('signed') else 'works', r.get('self_verify'),
+                                             r.get('openssl_accepts'), r.get('openssl_self'),
+                                             'accepted' if r.get('tlslite_accepts_openssl_sig') is True else 'rejected'),
+                                          dict(r, key_file='corpus/C10/rsa1025.pem',
+                                               how='key.hashAndSign(msg,"pss","sha256",32); key.hashAndVerify(osig,msg,"pss","sha256",32)')) or found
+                if r['cls'] == 'pss-modbits-1-mod-8' and r.get('leading_byte_accepted') is True:
+                    found = ctx.violation('sig-accepted:rsa:pss-leading-byte-nonzero',
+                                          'RSA-PSS, 1025-bit modulus: a signature whose EM has a non-zero byte in front of the emLen bytes is accepted',
+                                          dict(r, key_file='corpus/C10/rsa1025.pem', osig=r.get('lead_sig'))) or found
         for r in a_dsagen.get(900):
             ctx.count('dsa-generate', 1, [('verified', r.get('verified'), r.get('q_divides_p_minus_1'))], sample={k: str(v)[:60] for k, v in r.items()})
             if 'error' in r:
                 tie_broken = tie_broken or 'Python_DSAKey.generate failed: ' + r['error']
+            elif r['verified'] == r['signed'] and r['g_order_divides_q'] and not r.get('as_modelled'):
+                tie_broken = tie_broken or 'Python_DSAKey.generate no longer follows Model/C10_Dsa.v dsa_gen_key (p=2kq+1, g=index^((p-1)//q), y=g^x)'
             elif r['verified'] != r['signed'] or not r['g_order_divides_q']:
                 found = ctx.violation('dsa-generate-unusable',
                                       'Python_DSAKey.generate(1024,160): q divides p-1: %s, g^q = 1 mod p: %s; %d of %d signatures made with the '
